@@ -112,18 +112,17 @@ func runC13(c C13Case) (res common.Result) {
 	default:
 		min, max = m.First, m.Last
 	}
-	done := make(chan error, 1)
-	go func() { done <- w.DeleteRange(min, max) }()
-	select {
-	case err := <-done:
-		if err != nil {
-			res.Fail = common.Failf("delete-err", "DeleteRange(%d,%d) = %v", min, max, err)
-			ctl.Finish(time.Second)
-			return
-		}
-	case <-time.After(10 * time.Second):
-		_, dump := ctl.Finish(time.Second)
-		res.Fail = common.Failf("truncation-blocked-by-reader", "DeleteRange(%d,%d) did not return while %d readers were parked inside ReadAt; it must not wait for readers:\n%s", min, max, pinned, StackOf(dump, "raft-wal.(*WAL).DeleteRange"))
+	var derr error
+	doneCh := make(chan struct{})
+	go func() { derr = w.DeleteRange(min, max); close(doneCh) }()
+	if parked, st := common.WaitParked(doneCh, "raft-wal.(*WAL).DeleteRange", 2*time.Second, 5*time.Minute); parked {
+		ctl.Finish(time.Second)
+		res.Fail = common.Failf("truncation-blocked-by-reader", "DeleteRange(%d,%d) is parked while %d readers sit inside ReadAt; it must not wait for readers:\n%s", min, max, pinned, st)
+		return
+	}
+	if derr != nil {
+		res.Fail = common.Failf("delete-err", "DeleteRange(%d,%d) = %v", min, max, derr)
+		ctl.Finish(time.Second)
 		return
 	}
 	v0 := m.Clone()
@@ -131,7 +130,7 @@ func runC13(c C13Case) (res common.Result) {
 	// while readers are pinned the files may remain; release them
 	stuck, dump := ctl.Finish(5 * time.Second)
 	if len(stuck) > 0 {
-		res.Fail = common.Failf("deadlock", "readers %v never returned:\n%s", stuck, StackOf(dump, "raft-wal"))
+		res.Fail = common.Failf("deadlock", "readers %v are parked for good:\n%s", stuck, ctl.WorkerStacks(dump, stuck))
 		return
 	}
 	for _, r := range rr {
